@@ -814,6 +814,26 @@ let () =
                  op_new s true (fen_string true pa); ignore (visit s r pl);
                  op_setfen s true (fen_string true pb); ignore (visit s r pl);
                  op_setfen s true (fen_string true pa); ignore (visit s r pl);
+                 (* the SAME move asked on the one position and immediately afterwards on its equal-hash twin *)
+                 let fa = fen_string true pa and fb = fen_string true pb in
+                 let codes p = List.map code_of_move (spec_moves p) in
+                 let cb = codes pb in
+                 List.iter (fun c ->
+                     if List.mem c cb then begin
+                       let ask f =
+                         op_setfen s true f;
+                         let want = predict_hash s.keys (cur s).mp (move_of_code c) in
+                         (match toks (send s.d (Printf.sprintf "predict1 %d" c)) with
+                          | [ "P"; h ] ->
+                            ignore (send s.d (Printf.sprintf "make %d" c));
+                            let after = get_state s in
+                            ignore (send s.d "undo");
+                            if h <> hex_of_n after.chash then fail_spec "predict_hash(%s) = %s on %S, hash() after makemove = %s" (show_move (move_of_code c)) h f (hex_of_n after.chash);
+                            if h <> hex_of_n want then fail_model "predict_hash(%s) on %S differs from the model's" (show_move (move_of_code c)) f
+                          | _ -> raise (Mismatch ("crash", "predict1 line")));
+                         bump "predict_twin_queries" in
+                       ask fa; ask fb
+                     end) (codes pa);
                  root_children s r pl)) (rook_identity_pairs r (max 1 ((if !tier = "quick" then 64 else 1200) / !nshards)));
          run_positions s r corpus { none with p_text = true; p_predict = true; p_predict_cpp = true; depth = 14 } 2500 100000
                     ~extra:(tagged "castling_family" (castling_family r (600 / !nshards)) @ tagged "promo_family" (promo_family r (300 / !nshards))) ()
@@ -827,8 +847,13 @@ let () =
                  List.iter (fun p ->
                      start s true p;
                      ignore (visit s r { none with p_perft = 3 })) [ pa; pb; pa ])) (rook_identity_pairs r (max 1 ((if !tier = "quick" then 48 else 800) / !nshards)));
-         run_positions s r corpus { none with p_perft = (if !tier = "quick" then 2 else 3); depth = 3; undo_pct = 0; null_pct = 0 } 400 8000
-                    ~extra:(tagged "castling_family" (castling_family r (100 / !nshards)) @ tagged "ep_family" (ep_family r (200 / !nshards))) ()
+         (* perft(2) against the rules at every node of short walks; thorough adds perft(3) at the roots of a smaller sample
+            (the specification's mailbox perft(3) costs ~0.3 s per position) *)
+         run_positions s r corpus { none with p_perft = 2; depth = 3; undo_pct = 0; null_pct = 0 } 400 6000
+                    ~extra:(tagged "castling_family" (castling_family r (100 / !nshards)) @ tagged "ep_family" (ep_family r (200 / !nshards))) ();
+         if !tier <> "quick" then
+           run_positions s r corpus { none with p_perft = 3; depth = 0; undo_pct = 0; null_pct = 0 } 0 1200
+                    ~extra:(tagged "castling_family" (castling_family r (160 / !nshards)) @ tagged "promo_family" (promo_family r (160 / !nshards))) ()
        | "C20" ->
          run_scripts s r { none with p_state = true; p_moves = true; p_game = true; p_hist = true }
            [ "move_from_own_history"; "very_long_history"; "long_shuttle"; "perpetual_white"; "stale_history"; "fullmove_zero" ];
